@@ -44,19 +44,20 @@ struct Ctx {
   int loop_tid = -1;
   bool run_returned = false;
 
-  void spawn_loop(bool observe) {
-    loop_tid = rt::spawn([this, observe] {
-      if (observe) rt::obs("run.begin");
+  // expect_tid: the thread id the loop must get (spawn order); pfx: prefix of the observable events
+  void spawn_loop(bool observe, int expect_tid = LOOP_TID, const char* pfx = "") {
+    loop_tid = rt::spawn([this, observe, pfx] {
+      if (observe) rt::obs("%srun.begin", pfx);
       ctx.run(stop.get_token());
       run_returned = true;
-      if (observe) rt::obs("run.end");
+      if (observe) rt::obs("%srun.end", pfx);
     });
-    if (loop_tid != LOOP_TID) rt::fail("harness: loop thread is not T1");
+    if (loop_tid != expect_tid) rt::fail("harness: loop thread is not T%d", expect_tid);
   }
-  void stop_loop(bool observe) {
-    if (observe) rt::obs("stop.begin");
+  void stop_loop(bool observe, const char* pfx = "") {
+    if (observe) rt::obs("%sstop.begin", pfx);
     stop.request_stop();
-    if (observe) rt::obs("stop.end");
+    if (observe) rt::obs("%sstop.end", pfx);
   }
   void join_loop() {
     rt::join(loop_tid);
@@ -549,6 +550,126 @@ SCENARIO(wr_cancel_parked) {
   w.finish();
   w.env_drain();
   if (w.drained != 0) rt::fail("bytes of a cancelled write reached the pipe");
+}
+
+// stop requested before the write is started, pipe full; then a SECOND write on the same descriptor that
+// has to park as well: it must be the one that is woken when the pipe is drained (no registration of
+// the cancelled write may be left: one registration per descriptor, the second EPOLL_CTL_ADD would fail)
+SCENARIO(wr_cancel_before_start) {
+  IoWorld w(2, true);
+  w.env_fill();
+  w.cancel(0);
+  w.start_write(0, 8);
+  w.await(0);
+  if (w.slot[0].outcome != O_DONE) rt::fail("write started with a stopped token did not complete with done");
+  w.start_write(1, 8);
+  w.fence();
+  if (w.slot[1].completions == 0 && rtio::registrations_into(w.slot[1].storage, w.slot[1].op_size) != 1)
+    rt::fail("the parked second write on the descriptor has no epoll registration of its own");
+  w.env_drain(true);
+  w.await(1);
+  if (w.slot[1].outcome != O_VALUE || w.slot[1].value != 8) rt::fail("second write on the descriptor did not complete with value 8");
+  w.finish();
+  w.env_drain();
+  if (w.drained != 8) rt::fail("the pipe does not contain exactly the 8 bytes of the second write");
+}
+
+// the same on the read side: the second read parks (empty pipe) before its data arrives
+SCENARIO(rd_cancel_before_start_park) {
+  IoWorld w(2);
+  w.cancel(0);
+  w.start_read(0, 8);
+  w.await(0);
+  if (w.slot[0].outcome != O_DONE) rt::fail("read started with a stopped token did not complete with done");
+  w.start_read(1, 8);
+  w.fence();
+  if (w.slot[1].completions == 0 && rtio::registrations_into(w.slot[1].storage, w.slot[1].op_size) != 1)
+    rt::fail("the parked second read on the descriptor has no epoll registration of its own");
+  w.env_write(4);
+  w.await(1);
+  if (w.slot[1].outcome != O_VALUE || w.slot[1].value != 4) rt::fail("second read on the descriptor did not get the 4 bytes written later");
+  w.finish();
+}
+
+// ================================================================== two contexts
+// Work for context B submitted from the thread that runs context A's loop.  T0 = client, T1 = the
+// thread inside B.run(), T2 = the thread inside A.run().
+namespace {
+struct X2World;
+struct X2ItemA { X2World* w; void set_value() && noexcept; void set_done() && noexcept {} void set_error(std::exception_ptr) && noexcept {} };
+struct X2ItemB { X2World* w; void set_value() && noexcept; void set_done() && noexcept {} void set_error(std::exception_ptr) && noexcept {} };
+using X2OpA = decltype(unifex::connect(unifex::schedule(std::declval<Sched>()), std::declval<X2ItemA>()));
+using X2OpB = decltype(unifex::connect(unifex::schedule(std::declval<Sched>()), std::declval<X2ItemB>()));
+struct X2World {
+  Ctx b, a;                      // B first: its loop is T1
+  unifex::manual_lifetime<X2OpA> opA;
+  unifex::manual_lifetime<X2OpB> opB;
+  int runs_a = 0, runs_b = 0;
+  Latch b_ran;
+};
+void X2ItemA::set_value() && noexcept {
+  X2World* ww = w;
+  if (rt::self() != 2) rt::fail("item a of context A ran on T%d, not on the thread inside A.run()", rt::self());
+  if (++ww->runs_a > 1) rt::fail("item a ran twice");
+  rt::obs("A.run 0.0");
+  rt::point("in-item-a");
+  // from A's thread: schedule item b on context B
+  ww->opB.construct_with([&] { return unifex::connect(unifex::schedule(ww->b.ctx.get_scheduler()), X2ItemB{ww}); });
+  rt::obs("B.sched0.begin");
+  unifex::start(ww->opB.get());
+  rt::obs("B.sched0.end");
+}
+void X2ItemB::set_value() && noexcept {
+  X2World* ww = w;
+  if (rt::self() != 1) rt::fail("item b of context B ran on T%d, not on the thread inside B.run()", rt::self());
+  if (++ww->runs_b > 1) rt::fail("item b ran twice");
+  rt::obs("B.run 0.0");
+  rt::point("in-item-b");
+  ww->b_ran.signal();
+}
+}  // namespace
+
+SCENARIO(x2_schedule) {
+  rtio::reset();
+  X2World w;
+  w.b.spawn_loop(true, 1, "B.");
+  w.a.spawn_loop(true, 2, "A.");
+  w.opA.construct_with([&] { return unifex::connect(unifex::schedule(w.a.ctx.get_scheduler()), X2ItemA{&w}); });
+  rt::obs("A.sched0.begin");
+  unifex::start(w.opA.get());
+  rt::obs("A.sched0.end");
+  w.b_ran.wait();                // item b must run although B was (or went) idle: needs B's eventfd wake-up
+  w.a.stop_loop(true, "A.");
+  w.b.stop_loop(true, "B.");
+  w.a.join_loop();
+  w.b.join_loop();
+  if (w.runs_a != 1 || w.runs_b != 1) rt::fail("cross-context items ran %d/%d times", w.runs_a, w.runs_b);
+  w.opA.destruct(); w.opB.destruct();
+}
+
+// a read on context B (loop T1) started from the thread inside A.run() (T2): start_io and the completion
+// must run on B's thread
+SCENARIO(x2_read) {
+  IoWorld w(1);                  // context B = w.c, loop T1
+  Ctx a;
+  a.spawn_loop(false, 2);
+  struct StartRcv {
+    IoWorld* w;
+    void set_value() && noexcept {
+      if (rt::self() != 2) rt::fail("item of context A ran on T%d", rt::self());
+      w->start_read(0, 8);       // prints "start0" on T2
+    }
+    void set_done() && noexcept {}
+    void set_error(std::exception_ptr) && noexcept {}
+  };
+  w.env_write(5);
+  auto op = unifex::connect(unifex::schedule(a.ctx.get_scheduler()), StartRcv{&w});
+  unifex::start(op);
+  w.await(0);
+  if (w.slot[0].outcome != O_VALUE || w.slot[0].value != 5) rt::fail("cross-context read did not complete with value 5");
+  a.stop_loop(false);
+  a.join_loop();
+  w.finish();
 }
 
 RT_MAIN()
